@@ -19,7 +19,7 @@ RULE = (
 )
 ASSUMPTIONS = ["'y - z ~ x' and 'y + y ~ x' reduce to the single term y by the term algebra and are not treated as multi-term responses"]
 
-RHS = ["0", "1 - 1", "x", "0 + x", "x + f", "f:g", "x*f", "1", "x + (1|g)", "(x|g) + f", "0 + f + (0 + x|g)", "scale(x) + (f|g)", "poly(x, 2) + C(kk)"]
+RHS = ["x + y", "ys + x + np.log(y)", "0", "1 - 1", "x", "0 + x", "x + f", "f:g", "x*f", "1", "x + (1|g)", "(x|g) + f", "0 + f + (0 + x|g)", "scale(x) + (f|g)", "poly(x, 2) + C(kk)"]
 NS = [7, 10]
 
 
